@@ -295,6 +295,14 @@ def run(check, an: Analysis):
     check.instance('F', 'put:buffer.append', loop_ok and n_iter > 0, where_fn(put.fn),
                    'messages join a consumer buffer at its end', nontrivial=False)
     check.floor('F', 2)
+    # a consumer that leaves -- also one that is cancelled just as it leaves by itself --
+    # does not disturb the others: a cancellation that loses the race against the end of
+    # its task is disarmed (it would otherwise be thrown into the finished task and end
+    # the run for every consumer); rule shared with C03/C06
+    from . import c03, _scope
+    from ..paths import CANCEL_TASK
+    c03._check_signal_lifecycles(check, an, _scope.wrapper_callee(an), rule='P',
+                                 only=lambda fn, cls: cls == CANCEL_TASK)
     check.stats.update(an.stats())
 
 
